@@ -1,5 +1,17 @@
 /* C18 spy TU -- never compiled with LTO, always -O0.
  *
+ * Two observation channels:
+ *  (a) address-escaping victims (storage 0..2) call spy_fill(), which writes
+ *      the pattern and remembers the address;
+ *  (b) non-escaping stack victims (storage 3) never show their buffer to
+ *      anybody but the erase function.  They fill it themselves from
+ *      c18_magic[] (static storage of this TU, volatile, set per victim at run
+ *      time).  They are called from run_noescape() directly below a 64 KiB
+ *      alloca pad, and the SCAN bytes below the pad -- where the victim's
+ *      frame was -- are copied out right after the return, inline, before
+ *      anything is called.  Surviving runs of the victim's own pattern are
+ *      then counted in the copy.
+ *
  * It owns main(), fills every victim buffer with a run-time pattern
  * (spy_fill), remembers the address, and after the victim function has
  * returned -- i.e. when the buffer is dead (popped frame / freed chunk /
@@ -10,6 +22,7 @@
  *
  * c18_params.h is generated per program: NV and the parameter table.
  */
+#include <alloca.h>
 #include <stdio.h>
 #include <stdlib.h>
 #include <string.h>
@@ -17,7 +30,7 @@
 
 struct vparam {
     int id;
-    int storage;  /* 0 stack, 1 heap-then-free, 2 file-static */
+    int storage;  /* 0 stack, 1 heap-then-free, 2 file-static, 3 stack, address not escaping */
     int control;  /* 1 = plain memset twin */
     int total;    /* bytes in the object */
     int lead;     /* offset of the erase target inside the object */
@@ -40,6 +53,15 @@ static unsigned char post[NV][MAXTOTAL];
 static volatile unsigned char *addr[NV];
 static int rcs[NV];
 static uint64_t rt_seed;
+
+/* ---- channel (b) */
+#define PAD 65536  /* stack between this TU's frames and the victim's: later calls here cannot reach the dead frame */
+#define SCAN 4096  /* bytes below the pad that are inspected; victim frames are < 1 KiB */
+#define MINRUN 8   /* consecutive pattern bytes (consistent phase) that count as surviving secret */
+volatile unsigned char c18_magic[16]; /* the only copy of the pattern outside victim buffers; not on the stack */
+volatile unsigned c18_salt, c18_sink;
+static unsigned char region[SCAN];
+static int ne_residual[NV], ne_first[NV], ne_used[NV];
 
 static unsigned char expect_at(const struct vparam *p, int i) {
     int k = i - p->lead;
@@ -85,14 +107,106 @@ static void run_one(int k) {
         post[k][i] = q[i];
 }
 
+/* 16 distinct non-zero bytes per (run, victim): leftovers of earlier victims never match a later one's pattern */
+static void set_magic(int k) {
+    unsigned char pool[255];
+    uint64_t s = rt_seed * 7919ULL + 0xc18ULL + (uint64_t)k * 1000033ULL;
+    int i;
+    for (i = 0; i < 255; i++)
+        pool[i] = (unsigned char)(i + 1);
+    for (i = 0; i < 16; i++) {
+        int j = i + (int)(sm64(&s) % (uint64_t)(255 - i));
+        unsigned char t = pool[i];
+        pool[i] = pool[j];
+        pool[j] = t;
+        c18_magic[i] = pool[i];
+    }
+    c18_salt = (unsigned)sm64(&s);
+    c18_sink = 0;
+}
+
+/* the victim's frame lies directly below the pad.  No call between the
+ * victim's return and the end of the copy; the copy loop keeps its variables
+ * in this frame, 64 KiB above. */
+static void __attribute__((noinline)) run_noescape(int k) {
+    volatile unsigned char *pad = (volatile unsigned char *)alloca(PAD);
+    volatile unsigned char *q;
+    int i;
+    pad[0] = 0;
+    pad[PAD - 1] = 0;
+    rcs[k] = c18_victims[k]();
+    q = pad - SCAN;
+    for (i = 0; i < SCAN; i++)
+        region[i] = q[i];
+}
+
+/* map the whole stack range used below (and zero it) once, before any victim runs */
+static void __attribute__((noinline)) prefault(void) {
+    volatile unsigned char *p = (volatile unsigned char *)alloca(PAD + 4 * SCAN);
+    int i;
+    for (i = 0; i < PAD + 4 * SCAN; i++)
+        p[i] = 0;
+}
+
+static void judge_noescape(int k) {
+    const struct vparam *p = &c18_params[k];
+    unsigned char m[16];
+    int phase_of[256];
+    unsigned i, j, h = 0;
+    int pos, residual = 0, first = 0;
+    for (i = 0; i < 256; i++)
+        phase_of[i] = -1;
+    for (i = 0; i < 16; i++) {
+        m[i] = c18_magic[i];
+        phase_of[m[i]] = (int)i;
+    }
+    /* did the victim really fill and read its buffer?  (same recurrence as the generated code) */
+    j = c18_salt;
+    for (i = 0; i < (unsigned)p->len; i++) {
+        j = (j * 5u + 3u) % (unsigned)p->len;
+        h = h * 31u + m[j & 15];
+    }
+    ne_used[k] = (h == c18_sink);
+    for (pos = 0; pos < SCAN;) {
+        int ph = phase_of[region[pos]], n = 0;
+        if (ph < 0) {
+            pos++;
+            continue;
+        }
+        while (pos + n < SCAN && region[pos + n] == m[(ph + n) & 15])
+            n++;
+        if (n >= MINRUN) {
+            if (!residual)
+                first = pos - SCAN; /* relative to the bottom of the pad, i.e. the top of the victim's frame */
+            residual += n;
+        }
+        pos += n;
+    }
+    ne_residual[k] = residual;
+    ne_first[k] = first;
+}
+
 int main(int argc, char **argv) {
     int k;
     rt_seed = argc > 1 ? strtoull(argv[1], 0, 10) : (uint64_t)argc;
-    for (k = 0; k < NV; k++)
-        run_one(k);
+    prefault();
+    for (k = 0; k < NV; k++) {
+        if (c18_params[k].storage == 3) {
+            set_magic(k);
+            run_noescape(k);
+            judge_noescape(k);
+        } else
+            run_one(k);
+    }
     for (k = 0; k < NV; k++) {
         const struct vparam *p = &c18_params[k];
         int i, bad = 0, residual = 0, outside = 0, firstbad = -1, firstout = -1;
+        if (p->storage == 3) {
+            /* bad = residual = bytes in surviving pattern runs; firstbad = offset of the first run from the frame top */
+            printf("V %d rc=%d bad=%d residual=%d outside=0 firstbad=%d firstout=-1 used=%d\n", k, rcs[k], ne_residual[k],
+                   ne_residual[k], ne_first[k], ne_used[k]);
+            continue;
+        }
         for (i = 0; i < p->total; i++) {
             if (p->storage == 1 && i < HEAP_SKIP)
                 continue;
@@ -111,7 +225,7 @@ int main(int argc, char **argv) {
                     firstout = i - p->lead;
             }
         }
-        printf("V %d rc=%d bad=%d residual=%d outside=%d firstbad=%d firstout=%d\n", k, rcs[k], bad, residual,
+        printf("V %d rc=%d bad=%d residual=%d outside=%d firstbad=%d firstout=%d used=1\n", k, rcs[k], bad, residual,
                outside, firstbad, firstout);
     }
     printf("DONE %d\n", NV);
